@@ -29,6 +29,11 @@
 (* is correct for the forged tree - while other updates, among them the    *)
 (* donor's, may still be in flight.  UpdateResult refuses them whatever    *)
 (* `offered` holds at the linearization point.                             *)
+(*                                                                         *)
+(* Signature headers.  Callers also offer members of the header family     *)
+(* (fields hdr, form of the candidate): genuine signature bytes under      *)
+(* another hash / algorithm byte, garbage bytes, bytes the log's key made  *)
+(* over the unhashed content under a hash byte naming no hash.             *)
 (***************************************************************************)
 EXTENDS Witness, Json, IOUtils, Integers
 
@@ -55,7 +60,7 @@ Ev(name) == l <= Len(Trace) /\ Trace[l].ev = name
 \* JSON objects come back as records; candidates printed by the harness have exactly the spec's fields
 OverOf(j) == IF j.k = "sig" THEN [k |-> "sig", fam |-> j.fam, size |-> j.size, ts |-> j.ts, idf |-> j.idf] ELSE None
 CandOf(j) == IF j.k = "sth" THEN [k |-> "sth", fam |-> j.fam, size |-> j.size, ts |-> j.ts, signer |-> j.signer, idf |-> j.idf,
-                                  over |-> OverOf(j.over)]
+                                  over |-> OverOf(j.over), hdr |-> [hash |-> j.hdr.hash, alg |-> j.hdr.alg], form |-> j.form]
              ELSE IF j.k = "garbage" THEN Garbage ELSE None
 
 TraceReset ==
@@ -140,5 +145,6 @@ TraceAccepted ==
 \* the property on every state the real execution passed through
 TraceOnlySigned == OnlySigned
 TraceCosignedHeld == CosignedHeld
+TraceExactHeader == ExactHeaderOnly
 TraceForwardOnly == [][(Ev("Reset") /\ l' = l + 1) \/ (ForwardStep /\ CosignedForwardStep)]_tvars
 =============================================================================
